@@ -161,8 +161,8 @@ reg(Row("expand_composite", ("expand_composite",), _expand, opts=st.fixed_dictio
 reg(Row("eject_z", ("eject_z",),
         lambda c, o: cirq.eject_z(c, context=ctx(o), atol=_atol(o, 0.0), eject_parameterized=bool(X(o, "ep"))),
         opts=st.fixed_dictionaries({"atol": ATOLS, "ep": st.booleans()}),
-        unitary=U(param=True, boost=Z_LIKE + X_LIKE + SWAPS + PHXZ + [CZ1], boost_p=0.6),
-        records=M(boost=Z_LIKE + X_LIKE + SWAPS + [CZ1], boost_p=0.5), tol=atol_tol(0.0), sub_policy="subset", weight=4))
+        unitary=U(param=True, boost=Z_LIKE + X_LIKE + SWAPS + PHXZ + [CZ1], boost_p=0.6, sub_tags=(0, 0, 0, 1, 1, 2, 4)),
+        records=M(boost=Z_LIKE + X_LIKE + SWAPS + [CZ1], boost_p=0.5, sub_tags=(0, 0, 0, 1, 1, 2, 4)), tol=atol_tol(0.0), sub_policy="subset", weight=4))
 reg(Row("eject_phased_paulis", ("eject_phased_paulis",),
         lambda c, o: cirq.eject_phased_paulis(c, context=ctx(o), atol=_atol(o, 1e-8), eject_parameterized=bool(X(o, "ep"))),
         opts=st.fixed_dictionaries({"atol": ATOLS, "ep": st.booleans()}),
@@ -213,7 +213,7 @@ reg(Row("drop_negligible_operations", ("drop_negligible_operations",),
 
 reg(Row("drop_diagonal_before_measurement", ("drop_diagonal_before_measurement",),
         lambda c, o: cirq.drop_diagonal_before_measurement(c, context=ctx(o)),
-        records=M(boost=Z_LIKE + [CZ1, _g("CZPow", e=0.5, s=0.0), _g("Identity", n=1)], boost_p=0.5, meas=0.6), dist_only=True, sub_policy="subset", weight=4))
+        records=M(boost=Z_LIKE + [CZ1, _g("CZPow", e=0.5, s=0.0), _g("Identity", n=1)], boost_p=0.5, meas=0.6, sub_tags=(0, 0, 0, 1, 1, 2, 4)), dist_only=True, sub_policy="subset", weight=4))
 reg(Row("synchronize_terminal_measurements", ("synchronize_terminal_measurements",),
         lambda c, o: cirq.synchronize_terminal_measurements(c, context=ctx(o), after_other_operations=bool(X(o, "after", True))),
         opts=st.fixed_dictionaries({"after": st.booleans()}), records=M(meas=0.6), weight=3))
